@@ -5,7 +5,7 @@
    of abstract values.  Statements only; proofs in proofs/Cql*.v. *)
 From Coq Require Import ZArith List String Bool.
 From GCNP Require Import base.GoInt base.Bytes spec.SpecCql model.CqlWire model.CqlContainers model.CqlTyping model.CqlCases
-  proofs.CqlBytesLemmas proofs.CqlScalarProofs proofs.CqlContainerProofs.
+  proofs.CqlBytesLemmas proofs.CqlScalarProofs proofs.CqlContainerProofs model.CqlGoVal model.CqlGoCases proofs.CqlGoValProofs.
 Import ListNotations.
 Open Scope Z_scope.
 
@@ -35,6 +35,37 @@ Print Assumptions C14_nested_nulls_survive.
 Theorem C14_v2_refuses : forall v t x, uses4 v = false -> null_in_coll t x = true -> forall o, m_encode v t x <> OK o.
 Proof. intros v t x Hv. exact (v2_refuses_nulls v t Hv x). Qed.
 Print Assumptions C14_v2_refuses.
+
+(* ---- at the level of Go representations (model/CqlGoVal.v) *)
+(* every nil a modelled source type has - untyped nil, nil pointer, nil slice, nil map, pointer to a nil slice / map, nil []byte-like
+   leaf - encodes to NULL without error, for every codec that accepts the type *)
+Theorem C14_rep_nil_sources : forall v t gt, accepts t gt = true -> Forall (fun src => g_encode v t src = OK None) (nil_forms gt).
+Proof. exact nil_sources_encode_null. Qed.
+Print Assumptions C14_rep_nil_sources.
+
+(* decoding NULL into a destination of every modelled type, whatever it holds: wasNull, the zero value, no error *)
+Theorem C14_rep_null_into_prefilled : forall v t gt d, accepts_dest t gt = true -> g_decode v t gt d None = OK (true, gzero gt).
+Proof. exact null_into_prefilled. Qed.
+Print Assumptions C14_rep_null_into_prefilled.
+
+Theorem C14_rep_empty_into_prefilled : forall v t gt d,
+  accepts_dest t gt = true -> string_type t = false -> g_decode v t gt d (Some []) = OK (true, gzero gt).
+Proof. exact empty_into_prefilled. Qed.
+Print Assumptions C14_rep_empty_into_prefilled.
+
+(* whatever representation a NULL was encoded from, every accepted destination reports it *)
+Theorem C14_rep_null_round_trip : forall v t gt g o gt' d,
+  gabs t (Some (gt, g)) = Some VNull -> g_encode v t (Some (gt, g)) = OK o -> accepts_dest t gt' = true ->
+  g_decode v t gt' d o = OK (true, gzero gt').
+Proof. exact representations_null. Qed.
+Print Assumptions C14_rep_null_round_trip.
+
+Example C14_rep_nonvacuous :
+  accepts (TList (TScalar SInt)) (GSlice (GPtr (GLeaf SInt LVal))) = true /\
+  List.length (nil_forms (GSlice (GPtr (GLeaf SInt LVal)))) = 4%nat /\
+  g_decode 4 (TMap (TScalar SVarchar) (TScalar SInt)) (GMap (GLeaf SVarchar LVal) (GLeaf SInt LVal)) (GVMap [(GVLeaf (VBytes [107]), GVLeaf (VInt 1))]) None = OK (true, GVNilMap) /\
+  g_decode 4 (TTuple [TScalar SInt]) (GStruct [("A", "", GLeaf SInt LVal)]%string) (GVStruct [GVLeaf (VInt 9)]) None = OK (true, GVStruct [GVLeaf (VInt 0)]).
+Proof. vm_compute. repeat split; reflexivity. Qed.
 
 Definition c14_type : cqltype := TList (TTuple [TScalar SInt; TMap (TScalar SVarchar) (TUdt ["a"%string] [TSet (TScalar SBigint)])]).
 Definition c14_value : cval :=
